@@ -76,10 +76,42 @@ def selftest_totals() -> str:
     return "\n".join(out)
 
 
+def benign_matrix() -> str:
+    f = VERIF / "benign" / "results.json"
+    if not f.exists():
+        return ""
+    res = json.loads(f.read_text())
+    checks = [f"C{i:02d}" for i in range(1, 21)]
+    out = ["### A.4 Behaviour-preserving refactorings (benign/, fresh sub-agents) and what the 20 checks say about them", "",
+           "Per property: the refactorings written around its anchors (r1-r5 mixed kinds, r6-r10 structural only). `own` = verdict of the property's own check; "
+           "`other checks` = how many of the other 19 end silent / not decided (exit 2) / alarm.", "", "| refactoring | own | other checks: silent / not decided / alarm | kind (from the agent's notes) |", "|---|---|---|---|"]
+    verdict = {0: "silent", 1: "**ALARM**", 2: "not decided"}
+    tot = {0: 0, 1: 0, 2: 0}
+    n_alarm = 0
+    for name in sorted(res, key=lambda n: (n.split("_r")[0], int(n.split("_r")[1]))):
+        r = res[name]
+        if "apply" in r:
+            continue
+        pid = name.split("_")[0]
+        others = [r[c]["rc"] for c in checks if c != pid]
+        for c in checks:
+            tot[r[c]["rc"]] = tot.get(r[c]["rc"], 0) + 1
+        n_alarm += any(r[c]["rc"] == 1 for c in checks)
+        notes = VERIF / "benign" / name / "notes.md"
+        kind = ""
+        if notes.exists():
+            lines = [l.strip(" -*#") for l in notes.read_text().splitlines() if l.strip()]
+            kind = next((l for l in lines if "kind" in l.lower()), lines[0] if lines else "")[:110].replace("|", "/")
+        out.append(f"| {name} | {verdict[r[pid]['rc']]} | {others.count(0)} / {others.count(2)} / {others.count(1)} | {kind} |")
+    out.append("")
+    out.append(f"{len(res)} refactorings x 20 checks = {sum(tot.values())} runs: {tot[0]} silent, {tot[2]} not decided (exit 2), {tot[1]} alarms; {n_alarm} refactoring(s) with at least one alarm.")
+    return "\n".join(out)
+
+
 def main() -> None:
     p = VERIF / "DESIGN.md"
     text = p.read_text()
-    block = "\n\n".join(x for x in (rule_inventory(), detection_matrix(), selftest_totals()) if x)
+    block = "\n\n".join(x for x in (rule_inventory(), detection_matrix(), selftest_totals(), benign_matrix()) if x)
     gen = f"{BEGIN}\n\n{block}\n\n{END}"
     if BEGIN in text and END in text:
         text = text[: text.index(BEGIN)] + gen + text[text.index(END) + len(END):]
